@@ -11,6 +11,7 @@ All sends and deliveries are logged at the wire with virtual time.
 """
 
 import asyncio
+import contextvars
 import ipaddress
 import socket as _socket
 import struct
@@ -37,9 +38,11 @@ def addr(ip, port):
 
 
 class WireEvent:
-    __slots__ = ("t", "kind", "src", "dst", "data", "msg", "note", "idx")
+    __slots__ = ("t", "kind", "src", "dst", "data", "msg", "note", "idx", "seq", "cause")
 
     def __init__(self, t, kind, src, dst, data, note=None, idx=None):
+        self.seq = None  # position in the wire log
+        self.cause = None  # for 'send': seq of the 'deliver'/'error' event during whose synchronous processing it was emitted
         self.t = t
         self.kind = kind  # 'send' | 'deliver' | 'drop' | 'error'
         self.src = src
@@ -121,6 +124,7 @@ class SimNet:
         self.endpoints = {}  # (ip, port) -> endpoint with ._net_deliver(data, src, dst)
         self.log = []  # WireEvent
         self.sent = 0
+        self._delivering = None
         self.on_event = []  # callbacks(WireEvent) for online monitors
         self.after_delivery = []  # callbacks() at quiescent points
 
@@ -147,6 +151,9 @@ class SimNet:
 
     # -- sending ------------------------------------------------------------
     def _emit(self, ev):
+        ev.seq = len(self.log)
+        if ev.kind == "send":
+            ev.cause = self._delivering
         self.log.append(ev)
         for cb in self.on_event:
             cb(ev)
@@ -161,22 +168,28 @@ class SimNet:
             self._emit(WireEvent(self.loop.time(), "drop", src, dst, data, note="lost", idx=idx))
             return
         for d in delays:
-            self.loop.call_later(d, self._deliver, src, dst, data, idx)
+            # a fresh context per delivery: a real network does not carry the sender's contextvars to the receiver
+            self.loop.call_later(d, self._deliver, src, dst, data, idx, context=contextvars.Context())
 
     def inject(self, src, dst, data, delay=0.0):
         """A datagram that appears on the wire without any endpoint's send (forgery)."""
         idx = self.sent
         self.sent += 1
         self._emit(WireEvent(self.loop.time(), "send", src, dst, bytes(data), note="injected", idx=idx))
-        self.loop.call_later(delay, self._deliver, src, dst, bytes(data), idx)
+        self.loop.call_later(delay, self._deliver, src, dst, bytes(data), idx, context=contextvars.Context())
 
     def _deliver(self, src, dst, data, idx):
         ep = self._lookup(dst)
         if ep is None or getattr(ep, "closed", False):
             self._emit(WireEvent(self.loop.time(), "drop", src, dst, data, note="no listener", idx=idx))
             return
-        self._emit(WireEvent(self.loop.time(), "deliver", src, dst, data, idx=idx))
-        ep._net_deliver(data, src, dst)
+        ev = WireEvent(self.loop.time(), "deliver", src, dst, data, idx=idx)
+        self._emit(ev)
+        prev, self._delivering = self._delivering, ev.seq
+        try:
+            ep._net_deliver(data, src, dst)
+        finally:
+            self._delivering = prev
         for cb in self.after_delivery:
             cb()
 
@@ -187,12 +200,17 @@ class SimNet:
             ep = self._lookup(at)
             if ep is None or getattr(ep, "closed", False):
                 return
-            self._emit(WireEvent(self.loop.time(), "error", about, at, None, note="errno %d" % errno_value))
-            ep._net_error(about, errno_value)
+            ev = WireEvent(self.loop.time(), "error", about, at, None, note="errno %d" % errno_value)
+            self._emit(ev)
+            prev, self._delivering = self._delivering, ev.seq
+            try:
+                ep._net_error(about, errno_value)
+            finally:
+                self._delivering = prev
             for cb in self.after_delivery:
                 cb()
 
-        self.loop.call_later(delay, go)
+        self.loop.call_later(delay, go, context=contextvars.Context())
 
     # -- helpers for oracles --------------------------------------------------
     def events(self, kind=None, src=None, dst=None):
